@@ -225,7 +225,23 @@ Proof.
     try discriminate; try congruence.
   all: try (inversion Hq; subst; clear Hq); fin I; auto.
   all: try (destruct x; fin I; auto).
+  split; auto. destruct (done (subs st s)) eqn:Hdn; auto.
+  destruct (i_done _ I _ Hdn) as [Hc | [j' Hp]]; [congruence|].
+  assert (Hic : in_close (kp st s j') = true) by (destruct (kp st s j') as [| | | |[]]; cbn in *; congruence).
+  pose proof (i_smu1 _ I _ _ Hic). assert (j' = j) by congruence. subst. rewrite Heqk in Hp. discriminate.
+Qed.
+
+Lemma step_done : forall st t l st' br, inv st -> step VFixed st t l = Some (st', br) ->
+  forall s0, done (subs st' s0) = true ->
+    cleared (subs st' s0) = true \/ exists j0, past_done (kp st' s0 j0) = true.
+Proof.
+  intros st t l st' br I H s0.
+  destruct t as [p | s j]; step_inv H; simp; intros Hq.
+  all: eqb_tac; simp.
+  all: try (destruct (i_done _ I _ Hq) as [Hc | [j' Hp]];
+            [left; fin I; auto; fail | right; exists j'; eqb_tac; fin I; auto]).
   Show.
+
 
 
 
